@@ -204,7 +204,7 @@ def finish(prop, pd, tier, seed, results, wall, write_baseline=False):
     with open(os.path.join(VERIF, "evidence", "%s.json" % prop), "w") as f:
         json.dump(ev, f, indent=1, default=str)
 
-    if write_baseline and code == 0:
+    if write_baseline:
         baseline[prop] = sorted(unit_ok)
         with open(os.path.join(VERIF, "baseline_units.json"), "w") as f:
             json.dump(baseline, f, indent=1, sort_keys=True)
